@@ -1298,6 +1298,7 @@ func runC06(r *Rng, tier string, n int) {
 	rdataNameCompletion(r, mult)
 	includeChains()
 	includeTrees()
+	generateTTLInheritance()
 	concurrentParsers(r, tier)
 	Stat(stat)
 }
